@@ -8,6 +8,7 @@ import (
 
 	"github.com/logrange/logrange/api"
 	"github.com/logrange/logrange/pkg/cursor"
+	"github.com/logrange/range/pkg/records/chunk"
 	"github.com/logrange/range/pkg/records/journal"
 	. "verifharness/common"
 )
@@ -283,7 +284,10 @@ func runCase(rp *Replay, cg *caseGen) (*Case, error) {
 	sort.Slice(r.parts, func(a, b int) bool { return r.parts[a].src < r.parts[b].src })
 	r.st0 = r.coqStore()
 
-	cur := &api.QueryRequest{Query: rp.Flt.query(), Pos: rp.Start}
+	if err := r.resolveStart(); err != nil {
+		return nil, err
+	}
+	cur := &api.QueryRequest{Query: rp.Flt.query(), Pos: r.startS}
 	prev := cur
 	step := func(st Step) error {
 		if len(r.pages) == 0 {
@@ -291,7 +295,7 @@ func runCase(rp *Replay, cg *caseGen) (*Case, error) {
 			if len(st.Apps) > 0 {
 				return fmt.Errorf("appends before the first page are part of the initial store")
 			}
-			first, err := r.startIdx(rp.Start)
+			first, err := r.startIdx(r.startS)
 			if err != nil {
 				return err
 			}
@@ -333,6 +337,11 @@ func runCase(rp *Replay, cg *caseGen) (*Case, error) {
 		}
 	}
 	r.chainOracle()
+	if strings.HasPrefix(rp.Post, "late-partition") && !r.aborted && !r.hung {
+		if err := r.latePartition(strings.HasSuffix(rp.Post, ":rpc")); err != nil {
+			return nil, err
+		}
+	}
 
 	// ---- the Gallina case
 	var gsteps, gobs []string
@@ -341,6 +350,9 @@ func runCase(rp *Replay, cg *caseGen) (*Case, error) {
 			break // aborted
 		}
 		k := map[string]string{"same": "RSame", "evict": "REvict", "zero": "RZero", "posonly": "RPosOnly", "retry": "RRetry"}[st.Kind]
+		if ov, ok := r.kindOv[i]; ok {
+			k = ov
+		}
 		gsteps = append(gsteps, fmt.Sprintf("(mkStep %s %s %s %s)", k, GN(uint64(st.Limit)), GBool(st.Wait), GList(r.coqApps[i])))
 	}
 	for _, p := range r.pages {
@@ -368,10 +380,7 @@ func runCase(rp *Replay, cg *caseGen) (*Case, error) {
 		}
 		gobs = append(gobs, GTuple(GList(evs), GList(pl), GBool(p.id != 0)))
 	}
-	start := "PHead"
-	if strings.ToLower(rp.Start) == "tail" {
-		start = "PTail"
-	}
+	start := r.startG
 	coq := GApp("KRun", r.st0, rp.Flt.coq(), start, GList(gsteps), GList(gobs))
 	if rp.Bulk > 0 {
 		// a large generated store: compact form (the literal would take minutes to parse)
@@ -425,6 +434,8 @@ func runCase(rp *Replay, cg *caseGen) (*Case, error) {
 		stream = "empty-first"
 	} else if strings.HasPrefix(rp.Name, "range-grow-") {
 		stream = "range-grow"
+	} else if strings.HasPrefix(rp.Name, "resume-") {
+		stream = "resume-paths"
 	} else if rp.Name != "" {
 		stream = "corpus"
 	} else if rp.Sel != nil {
@@ -473,6 +484,22 @@ func runCase(rp *Replay, cg *caseGen) (*Case, error) {
 	}
 	if strings.ToLower(rp.Start) == "tail" {
 		tags = append(tags, "start-tail")
+	}
+	if strings.HasPrefix(rp.Start, "@") {
+		tags = append(tags, "start-"+rp.Start[1:])
+	}
+	for k, n := range r.pres {
+		for i := 0; i < n; i++ {
+			tags = append(tags, "pre:"+k)
+		}
+	}
+	for _, st := range rp.Steps {
+		if st.Wake {
+			tags = append(tags, "woken-page")
+		}
+		if st.Limit == 0 {
+			tags = append(tags, "limit-0")
+		}
 	}
 	return &Case{
 		Coq:        coq,
@@ -530,7 +557,7 @@ func corpus() []Replay {
 		},
 		{ // api.Select with a total limit above QueryMaxLimit over more than QueryMaxLimit matching events:
 			// the server clamps the first page to 10000 (and caches the cursor); the loop must go on until an empty page
-			Name: "select-over-max-limit", Chunk: 60000, Bulk: 10500,
+			Name: "select-over-max-limit", Chunk: 6000, Bulk: 10500,
 			Sel: &SelectSpec{Limit: 12000},
 		},
 		{ // api.Select, stream mode with a waiting (cached) cursor, appends into the last chunk between queries
@@ -657,6 +684,186 @@ func rangeGrow() []Replay {
 				out = append(out, rp)
 			}
 		}
+	}
+	return out
+}
+
+// resolveStart turns rp.Start into the Pos string of the first request and its Gallina form. Besides "", head and tail
+// there are positions built from the chunk layout the server chose (what a client may hold after chunks were removed,
+// or a Pos it put together itself):
+//   @mid     every partition inside its first chunk (index 1)
+//   @subset  the first partition is not named, the others are at @mid; a source the store does not have is named too
+//   @gap     a chunk id between the first chunk and the next one (as after a removed chunk), index 3
+//   @over    the first chunk with an index beyond its records
+//   @past    a chunk id above the last chunk
+func (r *runner) resolveStart() error {
+	s := r.rp.Start
+	switch strings.ToLower(s) {
+	case "", "head":
+		r.startS, r.startG = s, "PHead"
+		return nil
+	case "tail":
+		r.startS, r.startG = s, "PTail"
+		return nil
+	}
+	if !strings.HasPrefix(s, "@") {
+		return fmt.Errorf("unknown start %q", s)
+	}
+	var ss, gs []string
+	for i, pr := range r.parts {
+		if len(pr.layout) == 0 {
+			return fmt.Errorf("partition without chunks")
+		}
+		c0, cl := pr.layout[0], pr.layout[len(pr.layout)-1]
+		var p journal.Pos
+		switch s {
+		case "@mid":
+			p = journal.Pos{CId: chunk.Id(c0.Id), Idx: 1}
+		case "@subset":
+			if i == 0 {
+				continue
+			}
+			p = journal.Pos{CId: chunk.Id(c0.Id), Idx: 1}
+		case "@gap":
+			p = journal.Pos{CId: chunk.Id(c0.Id + 1), Idx: 3}
+		case "@over":
+			p = journal.Pos{CId: chunk.Id(c0.Id), Idx: uint32(c0.Cnt + 5)}
+		case "@past":
+			p = journal.Pos{CId: chunk.Id(cl.Id + 7), Idx: 0}
+		default:
+			return fmt.Errorf("unknown start %q", s)
+		}
+		ss = append(ss, pr.src+"="+p.String())
+		gs = append(gs, gPos(pr.src, p))
+	}
+	if s == "@subset" {
+		p := journal.Pos{CId: 77, Idx: 1}
+		ss = append(ss, "FFFF00000000AAAA="+p.String())
+		gs = append(gs, gPos("FFFF00000000AAAA", p))
+	}
+	r.startS, r.startG = strings.Join(ss, ":"), GApp("PList", GList(gs))
+	return nil
+}
+
+// resumePaths: deterministic scripts for the ways a walk is resumed that the generated chains do not take
+func resumePaths() []Replay {
+	evs := func(p int, from int64, n int, marker string) Batch {
+		b := Batch{Part: p}
+		for i := 0; i < n; i++ {
+			ts := from + int64(i)
+			e := Ev{Ts: ts, Msg: fmt.Sprintf("%s%05d", marker, ts%100000)}
+			if ts%3 == 0 {
+				e.Flds = fmt.Sprintf("f=v%d", ts)
+			}
+			b.Evs = append(b.Evs, e)
+		}
+		return b
+	}
+	one := func(p int, ts int64) []Batch { return []Batch{evs(p, ts, 1, "k")} }
+	var out []Replay
+	// positions a client can hold that do not name a record of the store as it is, over 1-3 partitions and small chunks
+	for _, start := range []string{"@mid", "@subset", "@gap", "@over", "@past"} {
+		for nparts := 1; nparts <= 3; nparts += 2 {
+			rp := Replay{Name: fmt.Sprintf("resume-start-%s-%d", start[1:], nparts), Chunk: 100, Start: start}
+			ts := int64(1001)
+			for round := 0; round < 3; round++ {
+				for p := 0; p < nparts; p++ {
+					rp.Init = append(rp.Init, evs(p, ts, 3, "k"))
+					ts += 3
+				}
+			}
+			rp.Steps = []Step{{Kind: "same", Limit: 2, Wait: true}, {Kind: "same", Limit: 3, Wait: true, Rpc: true}, {Kind: "posonly", Limit: 2},
+				{Kind: "same", Limit: 10001, Apps: one(0, ts)}, {Kind: "same", Limit: 7}}
+			out = append(out, rp)
+		}
+	}
+	// requests that cannot be served in the middle of a walk, with the walk's ReqId and without: the walk goes on
+	bad := []string{"garbage", "x=zz", "a=b=c", "x=ZZZZZZZZZZZZZZZZ00000001", ":", "x=0000000000000001zzzzzzzz"}
+	for i, b := range bad {
+		for _, cached := range []bool{true, false} {
+			rp := Replay{Name: fmt.Sprintf("resume-badpos-%d-%v", i, cached), Chunk: int64([]int{100, 1000000}[i%2])}
+			if i%2 == 1 {
+				rp.Flt = Filter{Needle: "k"}
+			}
+			nparts := 1 + i%2
+			ts := int64(1001)
+			for p := 0; p < nparts; p++ {
+				rp.Init = append(rp.Init, evs(p, ts, 4, "k"))
+				ts += 4
+			}
+			w := cached
+			rp.Steps = []Step{{Kind: "same", Limit: 2, Wait: w}, {Kind: "same", Limit: 1, Wait: w, Pre: "badpos:" + b, Rpc: i%2 == 0},
+				{Kind: "same", Limit: 2, Wait: w, Pre: "badpos0:" + b}, {Kind: "zero", Limit: 1, Wait: w, Pre: "badpos:" + b, Rpc: i%2 == 1},
+				{Kind: "same", Limit: 10001}, {Kind: "same", Limit: 7}}
+			out = append(out, rp)
+		}
+	}
+	// the walk's ReqId with another query text (ApplyState refuses, the answer comes from a new cursor), in the middle of a
+	// cached and of an uncached walk
+	for i, cached := range []bool{true, false, true, false} {
+		rp := Replay{Name: fmt.Sprintf("resume-otherquery-%d", i), Chunk: int64([]int{100, 1000000}[i/2])}
+		if i >= 2 {
+			rp.Flt = Filter{Needle: "k"}
+		}
+		nparts := 1 + i%2
+		ts := int64(1001)
+		for p := 0; p < nparts; p++ {
+			rp.Init = append(rp.Init, evs(p, ts, 2, "k"), evs(p, ts+2, 2, "z"))
+			ts += 4
+		}
+		w := cached
+		rp.Steps = []Step{{Kind: "same", Limit: 2, Wait: w}, {Kind: "same", Limit: 1, Wait: w, Pre: "otherquery", Rpc: i%2 == 0},
+			{Kind: "same", Limit: 1, Wait: w, Apps: one(0, ts)}, {Kind: "evict", Limit: 1, Wait: w, Pre: "otherquery"},
+			{Kind: "zero", Limit: 10001, Pre: "otherquery", Rpc: true}, {Kind: "same", Limit: 7}}
+		out = append(out, rp)
+	}
+	// a query over no partition (nothing to read from yet): an empty page, and the client is told to go on with that query;
+	// with a WaitTimeout it comes back when the time is over; after the script the partition of such a query is created
+	// and the chained request has to deliver it
+	for i, pos := range []string{"", "tail"} {
+		rp := Replay{Name: fmt.Sprintf("resume-nosource-%d", i), Chunk: 1000000, Post: []string{"late-partition", "late-partition:rpc"}[i]}
+		rp.Init = []Batch{evs(0, 1001, 3, "k")}
+		rp.Steps = []Step{{Kind: "same", Limit: 1, Wait: true}, {Kind: "same", Limit: 1, Wait: true, Pre: "nosource:" + pos, Rpc: i == 1},
+			{Kind: "same", Limit: 1, Wait: true, Pre: "nosourcewait:" + pos, Rpc: i == 0}, {Kind: "same", Limit: 7}}
+		out = append(out, rp)
+	}
+	// pages of limit 0 in the middle of a walk (the position is settled, nothing is delivered)
+	for i := 0; i < 4; i++ {
+		rp := Replay{Name: fmt.Sprintf("resume-limit0-%d", i), Chunk: int64([]int{100, 1000000}[i%2])}
+		if i >= 2 {
+			rp.Flt = Filter{Needle: "k"}
+		}
+		nparts := 1 + i%2
+		ts := int64(1001)
+		for p := 0; p < nparts; p++ {
+			rp.Init = append(rp.Init, evs(p, ts, 2, "k"), evs(p, ts+2, 2, "z"))
+			ts += 4
+		}
+		rp.Steps = []Step{{Kind: "same", Limit: 0, Wait: true, Rpc: i%2 == 0}, {Kind: "same", Limit: 1, Wait: true}, {Kind: "same", Limit: 0},
+			{Kind: "same", Limit: 2, Wait: true, Rpc: true}, {Kind: "same", Limit: 0, Wait: true, Rpc: i%2 == 1, Apps: one(0, ts)},
+			{Kind: "posonly", Limit: 0}, {Kind: "same", Limit: 10001}, {Kind: "same", Limit: 7}}
+		out = append(out, rp)
+	}
+	// a waiting page in the middle of a walk that is woken by an append (one event: it becomes readable at once)
+	for i := 0; i < 6; i++ {
+		rp := Replay{Name: fmt.Sprintf("resume-woken-%d", i), Chunk: int64([]int{100, 1000000, 100}[i%3])}
+		switch i % 3 {
+		case 1:
+			rp.Flt = Filter{Needle: "k"}
+		case 2:
+			rp.Flt = Filter{Range: true, Lo: 1002, Hi: 2000000}
+		}
+		nparts := 1 + i%2
+		ts := int64(1001)
+		for p := 0; p < nparts; p++ {
+			rp.Init = append(rp.Init, evs(p, ts, 3, "k"))
+			ts += 3
+		}
+		rp.Steps = []Step{{Kind: "same", Limit: 10001, Wait: true}, {Kind: "same", Limit: 3, Wake: true, Wait: true, Apps: one(0, ts)},
+			{Kind: "same", Limit: 1, Wake: true, Wait: true, Apps: one(nparts-1, ts+1)},
+			{Kind: "evict", Limit: 2, Wake: true, Wait: true, Apps: one(0, ts+2)},
+			{Kind: "same", Limit: 10001, Apps: []Batch{evs(nparts-1, ts+3, 2, "k")}}, {Kind: "same", Limit: 7}}
+		out = append(out, rp)
 	}
 	return out
 }
